@@ -94,8 +94,8 @@ async def execute(case, transport="mem"):
                         enabled.append(("open", c))
                 elif pos[c] < len(scripts[c]) and conns[c].client_closed_at is None:
                     enabled.append(("step", c))
-            if world.gate.pending:
-                enabled.append(("release",))
+            for gi in range(min(3, len([f for f in world.gate.pending if not f.done()]))):
+                enabled.append(("release", gi))   # one pending pause elapses; more than one is pending only when the code lets pauses overlap
             if world.timers.pending and timeouts_fired < case.get("max_timeouts", 2):
                 enabled.append(("timeout",))   # a timeout the server armed (wait_for / wait) expires now: only exists if the code arms one
             script_work = any(e[0] in ("open", "step") for e in enabled)
@@ -151,8 +151,8 @@ async def execute(case, transport="mem"):
                 await noise_conns[0].close()
                 executed.append(["noise_close"])
             else:
-                world.gate.release_one()
-                executed.append(["release"])
+                world.gate.release_at(ev[1])
+                executed.append(["release"] if ev[1] == 0 else ["release", ev[1]])
             await world.tick()
         for nc in noise_conns[(1 if noise_closed else 0):]:
             await nc.close()
